@@ -363,14 +363,16 @@ Section Children.
   Theorem run_children fuel c st st' :
     sort_run ob rso fuel c st = Ok st' -> grel g0 (st_gr st) -> grel g0 (st_gr st').
   Proof.
-    apply (run_preserves (fun s => grel g0 (st_gr s)) ob rso).
+    apply (run_preserves_unary (fun s => grel g0 (st_gr s)) ob rso).
     - intros i s s' H HG. rewrite (assign_gr _ _ _ H). exact HG.
+    - intros i s HG. exact HG.
+    - intros i s s' H HG. rewrite (set_index_gr _ _ _ H). exact HG.
     - intros i s. apply rebuild_at_grel.
   Qed.
 
   Lemma leftover_children n st st' : leftover n st = Ok st' -> grel g0 (st_gr st) -> grel g0 (st_gr st').
   Proof.
-    apply (leftover_preserves (fun s => grel g0 (st_gr s))).
+    apply (leftover_preserves_unary (fun s => grel g0 (st_gr s))).
     intros i s s' H HG. rewrite (assign_gr _ _ _ H). exact HG.
   Qed.
 End Children.
